@@ -186,21 +186,58 @@ func runPOS3(c *load.Ctx, r *report.RuleResult) {
 		return
 	}
 	n := 0
+	// the handler(s) of checkType and the helpers they call (two levels): wherever a positioned error
+	// leaves — as the operand of a panic, or as the value a helper hands back to be re-raised
+	var scope []*ssa.Function
+	seenFn := map[*ssa.Function]bool{}
+	var add func(f *ssa.Function, depth int)
+	add = func(f *ssa.Function, depth int) {
+		if f == nil || seenFn[f] || f.Blocks == nil || depth > 2 {
+			return
+		}
+		seenFn[f] = true
+		scope = append(scope, f)
+		for _, b := range f.Blocks {
+			for _, ins := range b.Instrs {
+				if call, ok := ins.(ssa.CallInstruction); ok {
+					if sc := call.Common().StaticCallee(); sc != nil && load.FuncInModule(sc) && load.FuncPkgRel(sc) == pkgChecker {
+						add(sc, depth+1)
+					}
+				}
+			}
+		}
+	}
 	for _, h := range fn.AnonFuncs {
+		add(h, 0)
+	}
+	isDocErr := func(v ssa.Value) bool {
+		mi, ok := v.(*ssa.MakeInterface)
+		if !ok {
+			return false
+		}
+		nt, ok := mi.X.Type().(*types.Named)
+		return ok && nt.Obj().Name() == "DocumentError"
+	}
+	for _, h := range scope {
 		for _, b := range h.Blocks {
 			for _, ins := range b.Instrs {
-				p, ok := ins.(*ssa.Panic)
-				if !ok {
+				var exit ssa.Instruction
+				switch x := ins.(type) {
+				case *ssa.Panic:
+					if isDocErr(x.X) {
+						exit = x
+					}
+				case *ssa.Return:
+					for _, rv := range x.Results {
+						if isDocErr(rv) {
+							exit = x
+						}
+					}
+				}
+				if exit == nil {
 					continue
 				}
-				mi, ok := p.X.(*ssa.MakeInterface)
-				if !ok {
-					continue
-				}
-				nt, ok := mi.X.Type().(*types.Named)
-				if !ok || nt.Obj().Name() != "DocumentError" {
-					continue
-				}
+				p := exit
 				n++
 				key := fmt.Sprintf("rebase|%s|re-raise#%d", load.FuncKey(fn), n)
 				var missing []string
